@@ -167,11 +167,14 @@ def dbc_text(c):
         tag = n["tag"]
         t = "" if tag is None else ("M" if tag == "M" else ("m%d" % tag[1] + ("M" if tag[0] == "mM" else "")))
         dstart = start if little else (8 * (start // 8) + 7 - start % 8)
-        lines.append(' SG_ %s %s: %d|%d@%d%s (1,0) [0|0] "" Vector__XXX' % (
-            name, t + " " if t else "", dstart, size, 1 if little else 0, "-" if signed else "+"))
+        # (every other frame has scaled signals, the multiplexers too: the selector is the raw value)
+        scale = "(2,1)" if (c["size"] + len(c["nodes"])) % 2 else "(1,0)"
+        lines.append(' SG_ %s %s: %d|%d@%d%s %s [0|0] "" Vector__XXX' % (
+            name, t + " " if t else "", dstart, size, 1 if little else 0, "-" if signed else "+", scale))
     lines.append("")
-    for sg, mx, rs in c["mulvals"]:
-        lines.append("SG_MUL_VAL_ 291 %s %s %s;" % (sg, mx, ", ".join("%d-%d" % (a, b) for a, b in rs)))
+    for k, (sg, mx, rs) in enumerate(c["mulvals"]):
+        # (the blank behind the comma of a range list is optional)
+        lines.append("SG_MUL_VAL_ 291 %s %s %s;" % (sg, mx, (", " if k % 2 else ",").join("%d-%d" % (a, b) for a, b in rs)))
     lines.append("")
     return "\n".join(lines)
 
@@ -187,7 +190,10 @@ def build(c):
     for n in c["nodes"]:
         name, start, size, little, signed = n["s"][:5]
         mp = "Multiplexor" if n["mux"] else (n["ranges"][0][0] if n["parent"] is not None else None)
-        fr.add_signal(cm.Signal(name, start_bit=start, size=size, is_little_endian=little, is_signed=signed, multiplex=mp))
+        sg_ = cm.Signal(name, start_bit=start, size=size, is_little_endian=little, is_signed=signed, multiplex=mp)
+        if (c["size"] + len(c["nodes"])) % 2:
+            sg_.factor, sg_.offset = 2, 1
+        fr.add_signal(sg_)
     fr.multiplex_signals()
     return fr, ""
 
